@@ -50,6 +50,9 @@ IN2_STEPS = [2, 4, 8, 16, 30]
 MACRO_THRESHOLDS = ["0", "0.005", "0.01", "0.02", "0.05", "0.1", "0.1", "0.2", "0.3", "0.5", "1"]
 MACRO_WAITS = [["0.3", "s"], ["0.5", "s"], ["0.75", "s"], ["1", "s"], ["1.5", "s"], ["0.01", "min"], ["0.02", "min"], ["0.0002", "h"],
                ["0.1", "s"], ["0.05", "s"]]
+# Block names are free text: two thirds of the blocks take their name from this small pool, so same-named blocks follow each
+# other and nest in each other (the others keep the unique name b<line number> of pcode_gen)
+BLOCK_NAMES = ["A", "A", "B", "Load"]
 ALARM_CONDS = [[">=", 1], ["=", 1], ["=", 2], [">", 1], [">=", 2]]
 
 
@@ -124,6 +127,7 @@ def _body(draw, depth: int, n_max: int, st_base: list, in_block: bool, opts: dic
             nd["end"] = draw(st.sampled_from(["endblock"] * 5 + ["endblocks"]))
             nd["end_t"] = None
             nd["end_ts"] = _thr(draw, st_base[0], 1, 2)
+            nd["bn"] = draw(st.sampled_from(BLOCK_NAMES)) if draw(st.integers(0, 2)) else None
         elif k == "callmacro":
             nd["name"] = opts["macro_name"]
         elif k == "alarm":
@@ -157,6 +161,25 @@ def cases(draw, opts: dict):
         macro = {"k": "macro", "t": None, "ts": None, "name": "M1", "c": _repeat_body(draw, True)}
         opts["macro_name"] = "M1"
     body = draw(_body(opts["depth"], opts["top"], st_base, False, opts))
+    if draw(st.integers(0, 4)) == 0:
+        # a Block with an inner Block (same name two times out of three) followed by thresholded lines of the outer block:
+        # the outer block's clock must survive the end of the inner one
+        def simple(n_max):
+            out = []
+            for _ in range(draw(st.integers(0, n_max))):
+                if draw(st.integers(0, 1)):
+                    out.append({"k": "wait", "t": None, "ts": None, "w": draw(st.sampled_from(WAITS[3:12])), "d": 0.0})
+                else:
+                    out.append({"k": "mark", "t": None, "ts": None})
+            return out
+        n1 = draw(st.sampled_from(BLOCK_NAMES))
+        n2 = n1 if draw(st.integers(0, 2)) else draw(st.sampled_from(BLOCK_NAMES))
+        pool = THRESHOLDS[st_base[0]][len(THRESHOLDS[st_base[0]]) // 3:]
+        inner = {"k": "block", "t": None, "ts": None, "bn": n2, "c": simple(2), "end": "endblock", "end_t": None,
+                 "end_ts": draw(st.sampled_from([None] + pool[:3]))}
+        after = [{"k": "mark", "t": None, "ts": draw(st.sampled_from(pool))} for _ in range(draw(st.integers(1, 2)))]
+        body = body + [{"k": "block", "t": None, "ts": None, "bn": n1, "c": simple(2) + [inner] + after, "end": "endblock",
+                        "end_t": None, "end_ts": draw(st.sampled_from([None] + pool))}]
     if macro is not None:
         body = [macro] + body
         if draw(st.integers(0, 1)):
@@ -199,7 +222,7 @@ def cases(draw, opts: dict):
 # ---------------------------------------------------------------------------------------------------------------
 
 class RLine:
-    __slots__ = ("id", "text", "kind", "depth", "parent", "node", "implicit", "ts", "index", "thread")
+    __slots__ = ("id", "text", "kind", "depth", "parent", "node", "implicit", "ts", "index", "thread", "bname")
 
     def __init__(self, **kw):
         for k, v in kw.items():
@@ -222,6 +245,10 @@ def render(tree) -> list[RLine]:
         text = l.text
         indent = "    " * l.depth
         body = text[len(indent):]
+        bname = None
+        if l.kind == "block":
+            bname = node.get("bn") or l.payload
+            body = "Block: %s" % bname
         if l.kind == "wait" and node.get("w"):
             body = "Wait: %s%s%s" % (node["w"][0], "" if node["w"][1] == "s" else " ", node["w"][1])
         if ts is not None:
@@ -234,7 +261,7 @@ def render(tree) -> list[RLine]:
                 break
             p = by_id[p].parent
         out.append(RLine(id=l.id, text=indent + body, kind=l.kind, depth=l.depth, parent=l.parent, node=l.node,
-                         implicit=l.implicit, ts=ts, index=i, thread=thread))
+                         implicit=l.implicit, ts=ts, index=i, thread=thread, bname=bname))
     return out
 
 
@@ -306,6 +333,8 @@ def valid_tree(tree) -> bool:
                     return False
             if k == "block":
                 if n.get("end") not in ("endblock", "endblocks") or n.get("end_t") is not None:
+                    return False
+                if n.get("bn") is not None and n["bn"] not in BLOCK_NAMES:
                     return False
                 if not ok_nodes(n.get("c", []), in_int):
                     return False
